@@ -544,6 +544,7 @@ def reflective_finding(ctx):
 
 
 def run(ctx):
+    ctx.weak_ids |= set(['._propose/'])     # helper-level contracts: arbitrated by the property-level native contract when they fail
     tpcn_propose(ctx)
     tpcn_factor(ctx)
     rwm(ctx)
